@@ -3,24 +3,69 @@
 // time is virtual (sim/rt/fdlayer.cpp). One run()-thread with a stop token; remote producers
 // scheduling items and timers; a reader and a writer actor doing sequential async_read_some /
 // async_write_some on a pipe with per-operation stop requests; peer close.
-// See DESIGN.md §8 C14/C07. The io_uring context is not driven (no kernel model was built).
+// See DESIGN.md §8 C14/C07. The same body drives io_uring_context over the in-process ring model
+// (sim/rt/uring_model.cpp): the byte channel is a pipe re-opened by path through
+// open_file_read_only / open_file_write_only, plus a regular file read and written at offsets.
 #include <kit/base.hpp>
 #include <kit/items.hpp>
 #include <kit/recv.hpp>
 
 #include <unifex/inline_scheduler.hpp>
+#include <unifex/file_concepts.hpp>
 #include <unifex/linux/io_epoll_context.hpp>
+#include <unifex/linux/io_uring_context.hpp>
 #include <unifex/scheduler_concepts.hpp>
 #include <unifex/span.hpp>
 
 #include <chrono>
+#include <fcntl.h>
+#include <unistd.h>
 
 extern "C" int usim_epoll_registrations_in(const void* p, size_t n);
 
 using namespace kit;
-using ctx_t = unifex::linuxos::io_epoll_context;
 
 namespace {
+
+struct epoll_traits {
+  using ctx_t = unifex::linuxos::io_epoll_context;
+  static constexpr const char* name = "io_epoll";
+  static constexpr bool has_files = false;
+  using sched_t = decltype(std::declval<ctx_t&>().get_scheduler());
+  using pipe_t = decltype(unifex::open_pipe(std::declval<sched_t>()));
+  struct Chan {
+    pipe_t pipe;
+    explicit Chan(sched_t s) : pipe(unifex::open_pipe(s)) {}
+    auto read(unsigned char* b, size_t n) { return unifex::async_read_some(pipe.first, unifex::as_writable_bytes(unifex::span{b, n})); }
+    auto write(unsigned char* b, size_t n) { return unifex::async_write_some(pipe.second, unifex::as_bytes(unifex::span{b, n})); }
+  };
+};
+
+struct uring_traits {
+  using ctx_t = unifex::linuxos::io_uring_context;
+  static constexpr const char* name = "io_uring";
+  static constexpr bool has_files = true;
+  using sched_t = decltype(std::declval<ctx_t&>().get_scheduler());
+  static unifex::filesystem::path fd_path(int fd) {
+    char buf[40];
+    snprintf(buf, sizeof buf, "/proc/self/fd/%d", fd);
+    return unifex::filesystem::path(buf);
+  }
+  struct Keeper {
+    int fds[2];
+    Keeper() { if (pipe2(fds, O_CLOEXEC) != 0) abort(); }
+    ~Keeper() { close(fds[0]); close(fds[1]); }
+  };
+  struct Chan {
+    Keeper keep;  // both ends stay open in the harness: no EOF/EPIPE unless a scenario asks for it
+    ctx_t::async_read_only_file rd;
+    ctx_t::async_write_only_file wr;
+    explicit Chan(sched_t s)
+      : rd(unifex::open_file_read_only(s, fd_path(keep.fds[0]))), wr(unifex::open_file_write_only(s, fd_path(keep.fds[1]))) {}
+    auto read(unsigned char* b, size_t n) { return unifex::async_read_some_at(rd, 0, unifex::as_writable_bytes(unifex::span{b, n})); }
+    auto write(unsigned char* b, size_t n) { return unifex::async_write_some_at(wr, 0, unifex::as_bytes(unifex::span{b, n})); }
+  };
+};
 
 constexpr int kMaxItems = 16;
 constexpr int kMaxIo = 6;
@@ -36,8 +81,18 @@ struct IoOp {
   unsigned char before[64];
 };
 
-struct World {
-  arena_box<ctx_t> ctx;
+struct FileOp {
+  bool is_write = false;
+  int off = 0, len = 1;
+  int stop_mode = 0;  // 0 none, 1 before start
+  int pre = 0;
+  OpRec rec;
+  unifex::inplace_stop_source stop;
+};
+constexpr int kMaxFile = 6;
+constexpr int kFileCap = 160;
+
+struct WorldBase {
   unifex::inplace_stop_source run_stop;
   int io_tid = -1;
   // scheduled items / timers
@@ -56,19 +111,29 @@ struct World {
   long written_total = 0, read_total = 0;
   volatile int writer_done = 0, reader_done = 0;
   bool timer_first = false;
+  // regular file (io_uring only)
+  int nfile = 0;
+  FileOp fo[kMaxFile];
+  const char* ctx_name = "";
+};
+template <class T>
+struct World : WorldBase {
+  arena_box<typename T::ctx_t> ctx;
 };
 
 void io_hook(Item* it, void* arg) {
-  World* w = (World*)arg;
+  WorldBase* w = (WorldBase*)arg;
   usim::np_scope np;
   KIT_CHECK(it->done_tid == w->io_tid, "c14.wrong-thread", "item %d completed on T%d, not on the thread inside run()", it->id, it->done_tid);
   if (it->channel == CH_VALUE && w->kind[it->id] != 0)
-    KIT_CHECK(it->done_now >= w->due_lo[it->id], "c07.early", "io_epoll timer %d completed with value %lluns before its due time", it->id, (unsigned long long)(w->due_lo[it->id] - it->done_now));
+    KIT_CHECK(it->done_now >= w->due_lo[it->id], "c07.early", "%s timer %d completed with value %lluns before its due time", w->ctx_name, it->id, (unsigned long long)(w->due_lo[it->id] - it->done_now));
 }
 
-void body_epoll(void*) {
-  World* w;
-  { usim::np_scope np; w = new World(); }
+template <class T>
+void body_io(void*) {
+  using ctx_t = typename T::ctx_t;
+  World<T>* w;
+  { usim::np_scope np; w = new World<T>(); w->ctx_name = T::name; }
   // ---- plan
   w->nprod = draw_range(1, 3);
   w->nitems = draw_range(0, 10);
@@ -113,7 +178,23 @@ void body_epoll(void*) {
   if (draw(3) == 0) usim_fault_rate(USIM_F_SYSCALL, 60);
   if (draw(3) == 0) usim_fault_rate(USIM_F_CAS_WEAK, 100);
   if (draw(3) == 0) usim_fault_rate(USIM_F_CLOCK_JITTER, 200);
-  usim_sample("io_epoll: producers=%d items=%d reads=%d writes=%d", w->nprod, w->nitems, w->nread, w->nwrite);
+  if constexpr (T::has_files) {
+    w->nfile = draw_range(0, kMaxFile);
+    for (int i = 0; i < kMaxFile; ++i) {
+      FileOp& o = w->fo[i];
+      o.is_write = draw(2) == 0 || i == 0;
+      o.off = draw(96);
+      o.len = 1 + draw(48);
+      o.stop_mode = draw(6) == 0 ? 1 : 0;
+      o.pre = draw_small(6);
+      o.rec.a = i;
+      o.rec.oracle_double = "c14.double";
+      o.rec.stop = &o.stop;
+      o.rec.what = o.is_write ? "async_write_some_at" : "async_read_some_at";
+    }
+    if (draw(3) == 0) usim_fault_rate(USIM_F_KERNEL_DELAY, 150);
+  }
+  usim_sample("%s: producers=%d items=%d reads=%d writes=%d fileops=%d", T::name, w->nprod, w->nitems, w->nread, w->nwrite, w->nfile);
 
   w->ctx.construct();
   auto sched = w->ctx->get_scheduler();
@@ -151,18 +232,17 @@ void body_epoll(void*) {
     });
 
   // ---- pipe I/O
-  auto pipe = unifex::open_pipe(sched);
-  auto* reader = &pipe.first;
-  auto* writer = &pipe.second;
+  arena_box<typename T::Chan> chan_box;
+  typename T::Chan* chan = &chan_box.construct(sched);
   using S = unifex::inline_scheduler;
-  thr[nt++] = std::thread([w, writer] {
+  thr[nt++] = std::thread([w, chan] {
     unsigned char next = 1;
     for (int i = 0; i < w->nwrite; ++i) {
       IoOp& o = w->wr[i];
       yields(o.pre);
       o.buf = (unsigned char*)usim_alloc((size_t)o.len);
       for (int b = 0; b < o.len; ++b) o.buf[b] = (unsigned char)(next + b);
-      auto snd = unifex::async_write_some(*writer, unifex::as_bytes(unifex::span{o.buf, (size_t)o.len}));
+      auto snd = chan->write(o.buf, (size_t)o.len);
       started_op<S, decltype(snd)> op;
       op.start(&o.rec, S{}, std::move(snd));
       o.rec.wait();
@@ -179,7 +259,7 @@ void body_epoll(void*) {
     }
     w->writer_done = 1;
   });
-  thr[nt++] = std::thread([w, reader] {
+  thr[nt++] = std::thread([w, chan] {
     unsigned char expect = 1;
     for (int i = 0; i < w->nread; ++i) {
       IoOp& o = w->rd[i];
@@ -187,7 +267,7 @@ void body_epoll(void*) {
       o.buf = (unsigned char*)usim_alloc((size_t)o.len);
       memset(o.buf, 0xEE, (size_t)o.len);
       if (o.stop_mode == 1) o.rec.request_stop();
-      auto snd = unifex::async_read_some(*reader, unifex::as_writable_bytes(unifex::span{o.buf, (size_t)o.len}));
+      auto snd = chan->read(o.buf, (size_t)o.len);
       started_op<S, decltype(snd)> op;
       op.start(&o.rec, S{}, std::move(snd));
       // a read that cannot be satisfied any more (writer finished, nothing buffered) is cancelled by the harness
@@ -243,10 +323,88 @@ void body_epoll(void*) {
       if (go) { o.stop.request_stop(); usim::np_scope np; o.rec.stop_end = seq(); }
     }
   });
+  // ---- regular file read/written at offsets (io_uring): sequential operations against a byte-array model
+  if constexpr (T::has_files) {
+    if (w->nfile > 0)
+      thr[nt++] = std::thread([w, sched] {
+        char path[64];
+        snprintf(path, sizeof path, "/dev/shm/usim-file-%d", (int)getpid());
+        int keep = open(path, O_RDWR | O_CREAT | O_TRUNC | O_CLOEXEC, 0600);
+        if (keep < 0) abort();
+        arena_box<typename ctx_t::async_read_write_file> file;
+        file.construct_with([&] { return unifex::open_file_read_write(sched, unifex::filesystem::path(path)); });
+        unlink(path);
+        unsigned char model[kFileCap];
+        int size = 0;
+        memset(model, 0, sizeof model);
+        unsigned char stamp = 0x40;
+        for (int i = 0; i < w->nfile; ++i) {
+          FileOp& o = w->fo[i];
+          yields(o.pre);
+          unsigned char* buf = (unsigned char*)usim_alloc((size_t)o.len);
+          if (o.is_write) for (int b = 0; b < o.len; ++b) buf[b] = (unsigned char)(stamp + b);
+          else memset(buf, 0xEE, (size_t)o.len);
+          if (o.stop_mode == 1) o.rec.request_stop();
+          if (o.is_write) {
+            auto snd = unifex::async_write_some_at(*file, (int64_t)o.off, unifex::as_bytes(unifex::span{buf, (size_t)o.len}));
+            started_op<S, decltype(snd)> op;
+            op.start(&o.rec, S{}, std::move(snd));
+            o.rec.wait();
+            op.destroy();
+          } else {
+            auto snd = unifex::async_read_some_at(*file, (int64_t)o.off, unifex::as_writable_bytes(unifex::span{buf, (size_t)o.len}));
+            started_op<S, decltype(snd)> op;
+            op.start(&o.rec, S{}, std::move(snd));
+            o.rec.wait();
+            op.destroy();
+          }
+          {
+            usim::np_scope np;
+            OpRec& r = o.rec;
+            // what the file really holds now (read through the harness's own descriptor)
+            unsigned char actual[kFileCap];
+            ssize_t asz = pread(keep, actual, sizeof actual, 0);
+            KIT_CHECK(r.done_tid == w->io_tid, "c14.wrong-thread", "file op %d completed on T%d, not the io thread", i, r.done_tid);
+            if (r.channel == CH_VALUE) {
+              if (o.is_write) {
+                KIT_CHECK(r.value > 0 && r.value <= o.len, "c14.bytes", "write_at of %d bytes reported %ld", o.len, r.value);
+                if (o.off > size) memset(model + size, 0, (size_t)(o.off - size));
+                memcpy(model + o.off, buf, (size_t)r.value);
+                if (o.off + (int)r.value > size) size = o.off + (int)r.value;
+                usim_probe("file write_at completed");
+              } else {
+                int avail = o.off < size ? size - o.off : 0;
+                int want = avail < o.len ? avail : o.len;
+                KIT_CHECK(r.value >= 0 && r.value <= want && (want == 0 || r.value > 0), "c14.bytes", "read_at(off=%d,len=%d) on a %d-byte file reported %ld bytes", o.off, o.len, size, r.value);
+                for (long b = 0; b < r.value; ++b)
+                  KIT_CHECK(buf[b] == model[o.off + b], "c14.data", "read_at(off=%d): byte %ld is %u, the file has %u there", o.off, b, buf[b], model[o.off + b]);
+                for (long b = r.value; b < o.len; ++b)
+                  KIT_CHECK(buf[b] == 0xEE, "c14.data", "read_at reported %ld bytes but wrote beyond them", r.value);
+                usim_probe("file read_at completed");
+              }
+            } else if (r.channel == CH_DONE) {
+              KIT_CHECK(r.stop_begin != 0, "c14.done-without-stop", "file op %d completed with done although its stop was never requested", i);
+              if (!o.is_write)
+                for (int b = 0; b < o.len; ++b)
+                  KIT_CHECK(buf[b] == 0xEE, "c14.data", "read_at %d completed with done but its buffer was written", i);
+              usim_probe("file op cancelled");
+            } else {
+              KIT_CHECK(false, "c14.errno", "file op %d failed with an error although no error was injected", i);
+            }
+            // a write that reported done must not have changed the file; every other outcome must match the model
+            KIT_CHECK(asz == size && memcmp(actual, model, (size_t)size) == 0, "c14.data", "after file op %d the file (%ld bytes) differs from the model (%d bytes): a reported result does not match what was transferred", i, (long)asz, size);
+          }
+          usim_free(buf);
+          stamp = (unsigned char)(stamp + 0x11);
+        }
+        file.destroy();
+        close(keep);
+      });
+  }
   for (int i = 0; i < nt; ++i) thr[i].join();
   wait_items_done(w->items, w->nitems);
   // ---- shut down: close the pipe, stop the loop (it must return), destroy the context
-  { auto tmp = std::move(pipe); }
+  chan_box.destroy();
   w->run_stop.request_stop();
   io.join();
   w->ctx.destroy();
@@ -262,7 +420,7 @@ void body_epoll(void*) {
       if (w->kind[k] != 0 && it.channel == CH_DONE && !w->timer_first) {
         uint64_t armed = w->stop_end_now[k] > w->start_end_now[k] ? w->stop_end_now[k] : w->start_end_now[k];
         if (w->stop_end_now[k] && w->start_end_now[k] && armed + slack < w->due_lo[k]) {
-          KIT_CHECK(it.done_now < w->due_lo[k], "c07.cancel-not-prompt", "io_epoll timer %d was stopped %lluns before its due time but completed only at/after it", k, (unsigned long long)(w->due_lo[k] - armed));
+          KIT_CHECK(it.done_now < w->due_lo[k], "c07.cancel-not-prompt", "%s timer %d was stopped %lluns before its due time but completed only at/after it", w->ctx_name, k, (unsigned long long)(w->due_lo[k] - armed));
           usim_probe("io timer cancelled promptly");
         }
       }
@@ -272,7 +430,7 @@ void body_epoll(void*) {
         Item& y = w->items[j];
         if (it.channel != CH_VALUE || y.channel != CH_VALUE || it.stop_begin || y.stop_begin) continue;
         if (w->kind[k] == 2 && w->kind[j] == 2 && w->due_lo[k] < w->due_lo[j] && w->start_end_now[k] + slack < w->due_lo[j]) {
-          KIT_CHECK(it.done_seq < y.done_seq, "c07.order", "io_epoll timer %d (due earlier) completed after timer %d", k, j);
+          KIT_CHECK(it.done_seq < y.done_seq, "c07.order", "%s timer %d (due earlier) completed after timer %d", w->ctx_name, k, j);
           usim_probe("io timer order pair checked");
         }
       }
@@ -286,6 +444,6 @@ void body_epoll(void*) {
 }  // namespace
 
 int main(int argc, char** argv) {
-  static const usim_workload table[] = {{"io_epoll", body_epoll}};
-  return usim_main(argc, argv, table, 1);
+  static const usim_workload table[] = {{"io_epoll", body_io<epoll_traits>}, {"io_uring", body_io<uring_traits>}};
+  return usim_main(argc, argv, table, 2);
 }
